@@ -346,13 +346,25 @@ def build(repo=None):
                 return [(s, Opaque("encoded-checker"))]
             return None
 
-        eng.method_models.update({"hexdigest": m_hexdigest, "md5": m_md5, "encode": m_encode})
+        TopModule = z3.Function("py_str_split_dot_1_head", STR, STR)  # typechecker.split(".", 1)[0]
+
+        def m_split(e, s, recv, args, kw, nd):
+            if isinstance(recv, Z) and recv.kind == "str" and recv.t.eq(tcs) and len(args) == 2 and isinstance(args[0], Z) and args[0].kind == "str" \
+                    and z3.is_string_value(z3.simplify(args[0].t)) and z3.simplify(args[0].t).as_string() == "." and isinstance(args[1], Z) and args[1].kind == "int":
+                return [(s, Tup([Z("str", TopModule(tcs)), Opaque("rest-of-the-dotted-path")], True))]
+            return None
+
+        eng.method_models.update({"hexdigest": m_hexdigest, "md5": m_md5, "encode": m_encode, "split": m_split})
         eng.globals["hashlib"] = Opaque("module:hashlib")
         made = Opaque("exec-defined-f")
 
         def m_exec(e, s, args, kw, nd):
             # exec(string_to_eval, {}, vars): defines `f` in vars; the source mentions the checker string (checked syntactically below)
             s1 = s.clone()
+            src = args[0] if args else None
+            want = z3.Concat(z3.StringVal("def f(x, *args, **kwargs):\n"), z3.StringVal("  import "), TopModule(tcs), z3.StringVal("\n"), z3.StringVal("  return "), tcs, z3.StringVal("(x, *args, **kwargs)"))
+            e.oblige(s, "C11:Typechecker:generated-function-imports-the-checker's-top-module-and-applies-exactly-that-checker",
+                     (src.t == want) if isinstance(src, Z) and src.kind == "str" else z3.BoolVal(False))
             if len(args) == 3 and isinstance(args[2], Ref):
                 s1.put(args[2], Obj("dictlit", {"items": Tup([]), "f": made}))
             return [(s1, NONE)]
@@ -394,19 +406,33 @@ def build(repo=None):
             if kind == "str":
                 eng.oblige(s1, "C11:Typechecker:lookup-entry-is-the-function-defined-from-the-checker-string", L.m[h] == made.t)
         collect(st.obl, ["C11", "C18"])  # the hash is also the bytecode-cache tag: two different checker strings must never share it (C18)
-    # the exec'd source applies exactly the checker string; get_ast mentions this instance's hash
-    src_ok = False
-    for nnode in ast.walk(ti):
-        if isinstance(nnode, ast.Assign) and getattr(nnode.targets[0], "id", None) == "string_to_eval":
-            txt = ast.unparse(nnode.value)
-            src_ok = "def f(x, *args, **kwargs)" in txt and "return {typechecker}(x, *args, **kwargs)" in txt and "import {typechecker.split('.', 1)[0]}" in txt
-    obligations.append({"clause": "C11:Typechecker:generated-function-imports-the-checker's-top-module-and-applies-exactly-that-checker", "kind": "vc", "pc": [], "goal": z3.BoolVal(src_ok), "path": [], "meta": {}, "serves": ["C11"]})
+    # get_ast mentions this instance's hash
     ga = mod.func("Typechecker.get_ast")
     fdesc("Typechecker.get_ast", ga)
-    gtxt = ast.unparse(ga)
-    ga_ok = "Typechecker.lookup['{self.hash}']" in gtxt and "jaxtyping.jaxtyped(typechecker=" in gtxt and ".decorator_list[0]" in gtxt and "ast.parse(" in gtxt
     cached = any(isinstance(d, (ast.Name, ast.Attribute, ast.Call)) for d in ga.decorator_list)
-    obligations.append({"clause": "C11:get_ast:decorator-expression-looks-up-this-instance's-hash(fresh-parse-per-call,no-cache)", "kind": "vc", "pc": [], "goal": z3.BoolVal(ga_ok and not cached), "path": [], "meta": {}, "serves": ["C11", "C10"]})
+    eng = Engine(mod)
+    st = State()
+    st.ghost["parsed"] = []
+    hsh0 = z3.String("self_hash")
+    DECO = Opaque("the-parsed-decorator-expression")
+
+    def m_parse(e, s, args, kw, nd):
+        s1 = s.clone()
+        s1.ghost["parsed"] = s1.ghost["parsed"] + [args[0] if args else NONE]
+        fdef = Opaque("parsed-def", attrs={"decorator_list": Tup([DECO], True)})
+        return [(s1, Opaque("parsed-module", attrs={"body": Tup([fdef], True)}))]
+
+    eng.globals["ast"] = Opaque("global:ast")
+    eng.globals["ast.parse"] = Fn("ast.parse", model=m_parse)
+    self_ga = st.alloc(Obj("Typechecker", {"hash": Z("str", hsh0)}, tag="self"))
+    st.env = {ga.args.args[0].arg: self_ga}
+    for s1, o in eng.run(ga.body, st):
+        paths += 1
+        pr = s1.ghost["parsed"]
+        ok = o.kind == "return" and o.val is DECO and len(pr) == 1 and isinstance(pr[0], Z) and pr[0].kind == "str"
+        want = z3.Concat(z3.StringVal("@jaxtyping.jaxtyped(typechecker=jaxtyping._import_hook.Typechecker.lookup['"), hsh0, z3.StringVal("'])\n"), z3.StringVal("def _():\n    ..."))
+        eng.oblige(s1, "C11:get_ast:decorator-expression-looks-up-this-instance's-hash(fresh-parse-per-call,no-cache)", z3.And(pr[0].t == want, z3.BoolVal(not cached)) if ok else z3.BoolVal(False))
+    collect(st.obl, ["C11", "C10"])
 
     # ================================================================== C18: cache name + patch extent
     oc = mod.func("_optimized_cache_from_source")
